@@ -664,6 +664,10 @@ func (ev *env) doCase(sh *shape, op string, cd caseDef, id string, sample map[st
 	old := bs.snap
 	caseDir := filepath.Join(ev.scratch, "cases", fmt.Sprintf("c%d", atomic.AddInt64(&ev.caseSeq, 1)))
 	defer func() {
+		if os.Getenv("VERIF_C12_KEEP") != "" { // debugging aid (with VERIF_KEEP=1 of ./check)
+			fmt.Fprintln(os.Stderr, "kept case directory:", caseDir)
+			return
+		}
 		os.RemoveAll(caseDir)
 	}()
 	gitx.CopyTree(b.dir, caseDir)
@@ -855,6 +859,12 @@ func tail(s string) string {
 
 // ---------------------------------------------------------------------------------------------
 
+func closeWorld(w *gitx.World) {
+	if os.Getenv("VERIF_C12_KEEP") == "" {
+		w.Close()
+	}
+}
+
 func TestVerifC12(t *testing.T) {
 	c := vx.NewCheck("C12", "exploration")
 	scratch := os.Getenv("VERIF_SCRATCH")
@@ -867,7 +877,6 @@ func TestVerifC12(t *testing.T) {
 		fmt.Println("TOOL-ERROR", err)
 		os.Exit(2)
 	}
-	defer w.Close()
 	gitx.CmdTimeout = 60 * time.Second
 	tier := c.Tier
 	var rf *vx.ReplayFile
@@ -879,6 +888,7 @@ func TestVerifC12(t *testing.T) {
 		}
 		if rf.Tier != "" {
 			tier = rf.Tier // the choice domains depend on the tier
+			c.Tier = rf.Tier // Finish rewrites the replay file of a confirmed violation: keep its tier
 		}
 	}
 	ev := &env{w: w, scratch: w.Root, shapes: makeShapes(tier == "thorough"), bstate: map[string]*baseState{}, psel: map[string]map[string]bool{}, found: map[string]vx.FoundViolation{}}
@@ -930,7 +940,7 @@ func TestVerifC12(t *testing.T) {
 		st.Absorb(rf.Prefix, &r, 0)
 		fmt.Printf("replayed case: %v\n  outcome: %s\n", r.Sample, r.Outcome)
 		code := c.Finish([]vx.Part{{Scenario: "migrate", Stats: st, Exec: exec}}, nil)
-		w.Close()
+		closeWorld(w)
 		os.Exit(code)
 	}
 	workers := runtime.NumCPU() + runtime.NumCPU()/2
@@ -955,6 +965,6 @@ func TestVerifC12(t *testing.T) {
 		extra["distinct_violation_fingerprints"] = []string{}
 	}
 	code := c.Finish([]vx.Part{{Scenario: "migrate", Stats: st, Exec: exec}}, extra)
-	w.Close()
+	closeWorld(w)
 	os.Exit(code)
 }
